@@ -10,7 +10,7 @@ import vcheck
 from vcheck import Job
 
 RULE = ("cell = one requested lambda (every integer in [-5,300] plus INT32_MIN/MAX and a few others), per build and per process "
-        "history (none; near-default custom sets imported through tfhe_io first; the other level requested first; a custom key set made, exported and re-imported first); the "
+        "history (none; near-default custom sets imported through tfhe_io first; the other level requested first; a custom key set made, exported and re-imported first; earlier requests that ran out of memory at their k-th allocation and were caught); the "
         "observation is the termination status of a forked child and, when it returns, every field of the returned set; "
         "oracle: abort outside 1..128, pinned table equality (80-bit for 1..80, 128-bit for 81..128), README cross-read, "
         "security(returned) >= lambda, structural constraints recomputed independently, >= 12 sigma decoding margin")
@@ -49,7 +49,7 @@ def run(tier, seed, t0):
             Job("debug", "drv_c19", "debug", "nayuki-portable", []),
             Job("optim-fftw", "drv_c19", "optim", "fftw", [])]
     # histories: what the process did before the request (imports of near-default custom sets, other requests, key sets)
-    for h in (1, 2, 3, 4):
+    for h in (1, 2, 3, 4, 5):      # 5: earlier requests of the process ran out of memory at their k-th allocation (k = 1..12), caught by the caller
         jobs.append(Job("optim-history%d" % h, "drv_c19", "optim", "spqlios-fma", ["--history", h, "--lo", -2, "--hi", 140]))
     jobs.append(Job("debug-history1", "drv_c19", "debug", "nayuki-portable", ["--history", 1, "--lo", 70, "--hi", 135]))
     results = vcheck.run_jobs(jobs)
